@@ -450,7 +450,7 @@ func (b *bastionSession) oneRequest(w *world, ls *logState) {
 		case 0:
 			body = []byte{}
 		case 1:
-			body = bytes.Replace(good, []byte("old "), []byte("new "), 1)
+			body = bytes.Replace(good, []byte("old "), []byte([]string{"new ", "", "Old ", " old "}[rng.Intn(4)]), 1) // "" leaves the bare number
 		case 2:
 			body = bytes.Replace(good, []byte(fmt.Sprintf("old %d", stored)), []byte("old x"), 1)
 		case 3:
@@ -650,7 +650,7 @@ func scenarioParseBody(t *traceWriter, rng *rand.Rand) {
 			k := rng.Intn(len(m))
 			m = append(m[:k], append(randHash(rng, 1+rng.Intn(6)), m[k:]...)...)
 		case 4:
-			heads := []string{"old 1xyz", "old 5 6", "old\t5", "old 0x10", "old 1_0", "old  7", "old 5", "old 5", "old +5", "old -5", "old", "old ", "Old 5", "old5", " old 5", "old 00005", "old 5\r", "old \r5", "old \xff5", "old 5\xff", "old 18446744073709551615", "old 18446744073709551616", "old 99999999999999999999999999"}
+			heads := []string{"5", "0", "7\r", "18446744073709551615", "old 1xyz", "old 5 6", "old\t5", "old 0x10", "old 1_0", "old  7", "old 5", "old 5", "old +5", "old -5", "old", "old ", "Old 5", "old5", " old 5", "old 00005", "old 5\r", "old \r5", "old \xff5", "old 5\xff", "old 18446744073709551615", "old 18446744073709551616", "old 99999999999999999999999999"}
 			m = append([]byte(heads[rng.Intn(len(heads))]), m[bytes.IndexByte(m, '\n'):]...)
 		case 5: // very long proof line (> 4096 characters)
 			long := base64.StdEncoding.EncodeToString(randHash(rng, 3000+rng.Intn(400)))
